@@ -222,6 +222,19 @@ func c19Pairs(r *vk.Rand) []pair {
 	k := randScalarBig(r)
 	ps = append(ps, pair{"point-negated", []aitem{aPoint(k)}, []aitem{aPoint(new(big.Int).Sub(ref.Q, k))}})
 	ps = append(ps, pair{"point-vs-scalar", []aitem{aPoint(k)}, []aitem{aScalar(k)}})
+	// numbers of realistic width that differ only in their high part / only in their low part (a fixed-width or
+	// truncating encoding of wide values would identify them): ciphertexts live below N^2 (4096 bits), moduli and
+	// naturals at 2048 bits
+	for _, w := range []int{512, 384, 256, 200} {
+		base := new(big.Int).SetBytes(r.Bytes(w))
+		base.SetBit(base, 8*w-1, 1)
+		hi := new(big.Int).Xor(base, new(big.Int).Lsh(big.NewInt(1), uint(8*w-9-r.Intn(8*w/2-16))))
+		lo := new(big.Int).Xor(base, new(big.Int).Lsh(big.NewInt(1), uint(r.Intn(64))))
+		ps = append(ps, pair{fmt.Sprintf("ciphertext-%dB-high-bit", w), []aitem{aCipher(base)}, []aitem{aCipher(hi)}})
+		ps = append(ps, pair{fmt.Sprintf("ciphertext-%dB-low-bit", w), []aitem{aCipher(base)}, []aitem{aCipher(lo)}})
+		ps = append(ps, pair{fmt.Sprintf("nat-%dB-high-bit", w), []aitem{aNat(base)}, []aitem{aNat(hi)}})
+		ps = append(ps, pair{fmt.Sprintf("bigint-%dB-high-bit", w), []aitem{aBig(base)}, []aitem{aBig(hi)}})
+	}
 	e1 := aExp(r, 2, false)
 	e2 := aExp(r, 2, false)
 	ps = append(ps, pair{"exponent-other", []aitem{e1}, []aitem{e2}})
